@@ -149,6 +149,23 @@ func (tk *task) run(chGlobals map[string]lua.LValue, shared map[string]*lua.Func
 			tk.trace = append(tk.trace, h.Trace...)
 			tk.trace = append(tk.trace, fmt.Sprintf("--- state %d closed", i))
 			h.L.Close()
+			// a full default state (all libraries opened through the package-level tables), compile, run, close
+			tk.budget = tk.mb.park(pendingOp{kind: parkStep})
+			F := lua.NewState()
+			var got []string
+			F.SetGlobal("note", F.NewFunction(func(L *lua.LState) int {
+				got = append(got, L.ToString(1))
+				return 0
+			}))
+			F.PreloadModule("lifemod", func(L *lua.LState) int {
+				L.Push(L.SetFuncs(L.NewTable(), map[string]lua.LGFunction{"f": func(L *lua.LState) int { L.Push(lua.LNumber(7)); return 1 }}))
+				return 1
+			})
+			if err := F.DoString(fullLifeSrc); err != nil {
+				tk.err = err.Error()
+			}
+			tk.trace = append(tk.trace, "full:"+strings.Join(got, ","))
+			F.Close()
 		}
 	default:
 		h := tk.newHost(chGlobals, shared)
@@ -338,6 +355,22 @@ emit("before")
 B:send(1)
 emit("after send")
 while true do end
+`
+
+const fullLifeSrc = `local m = require("lifemod")
+note(tostring(m.f()))
+note(string.format("%5.2f|%d|%s|%q", 3.14159, 42, "x", "a b"))
+note((string.gsub("hello world", "(%w+)", "<%1>")))
+note(tostring(string.find("abc123", "%d+")))
+local t = {5, 2, 8, 1}
+table.sort(t)
+note(table.concat(t, "-"))
+note(tostring(math.max(1, 9, 3)) .. tostring(#os.date("%Y")))
+note(tostring(select("#", pcall(error, {}))))
+local ok, e = pcall(require, "nosuchmodule")
+note(tostring(ok))
+local f = loadstring("return 1 + 1")
+note(tostring(f()))
 `
 
 const lifecycleSrc = `local t = {}
@@ -583,7 +616,8 @@ func (e *Engine) Run(t *core.Tape, cfg *core.Config, st *core.Stats) *core.Viola
 				return fail("solo-equivalence", "task %d %s computed something else than it computes alone\nconcurrent:\n  %s\nsolo:\n  %s\nprogram:\n%s", tk.id, tk.name, strings.Join(tailS(got, 25), "\n  "), strings.Join(tailS(tk.soloTrace, 25), "\n  "), tk.src)
 			}
 		case kLifecycle:
-			want := "E:'life',2870,2,8,'7','xxx'|E:'life-err',false,'x'|--- state 0 closed|E:'life',2870,2,8,'7','xxx'|E:'life-err',false,'x'|--- state 1 closed|E:'life',2870,2,8,'7','xxx'|E:'life-err',false,'x'|--- state 2 closed"
+			one := "E:'life',2870,2,8,'7','xxx'|E:'life-err',false,'x'|--- state %d closed|full:7, 3.14|42|x|\"a b\",<hello> <world>,4,1-2-5-8,94,2,false,2"
+			want := fmt.Sprintf(one, 0) + "|" + fmt.Sprintf(one, 1) + "|" + fmt.Sprintf(one, 2)
 			if got := strings.Join(tk.trace, "|"); got != want || tk.err != "" {
 				return fail("solo-equivalence", "lifecycle task %d: trace %q error %q, want %q", tk.id, got, tk.err, want)
 			}
